@@ -255,7 +255,9 @@ func (e *Engine) Run(prop string, ch *kernel.Chooser, st *kernel.Stats) kernel.R
 		w.qleft = w.quantum
 	}
 	w.spawnNum = ch.Choose(5)
+	kernel.PauseWatchdog() // child processes computing references are not the code under test
 	e.ensureSolo(seeds, st)
+	kernel.ResumeWatchdog()
 	var viols []kernel.Violation
 	viols = append(viols, e.pending...)
 	e.pending = nil
@@ -324,7 +326,10 @@ func (e *Engine) Run(prop string, ch *kernel.Chooser, st *kernel.Stats) kernel.R
 		ref := e.solo[seed]
 		if k := diffResults(ref.res, got); k != "" && k != "<invariants>" {
 			detail := fmt.Sprintf("job %d %s differs from the same job alone in a fresh process at %q; %s", seed, where, k, sched)
-			if fullRef, err := runSoloChild(e.exe, seed, true); err == nil && fullRef.Failed == "" {
+			kernel.PauseWatchdog()
+			fullRef, err := runSoloChild(e.exe, seed, true)
+			kernel.ResumeWatchdog()
+			if err == nil && fullRef.Failed == "" {
 				for i, kv := range fullRef.KVs {
 					if i < len(got.KVs) && got.KVs[i].Key == kv.Key && got.KVs[i].Hash != kv.Hash {
 						detail += "\n--- alone:\n" + clipAround(kv.Text, got.KVs[i].Text) + "\n--- here:\n" + clipAround(got.KVs[i].Text, kv.Text)
